@@ -93,25 +93,36 @@ def check(pid, tier, seed):
             raise MachineryError(f'only {len(kept)} plans exported')
         rng.shuffle(kept)
 
+        import re
+
+        def letters(evs):
+            return ''.join({'flush': 'f', 'backup': 'b', 'stop': 's', 'start': 'S', 'serve': 'v', 'tool': 't', 'batch': 'c',
+                            'setfc': 'x', 'kill': 'k'}[e['e']] for e in evs)
+
         def score(evs):
-            k = ''.join({'flush': 'f', 'backup': 'b', 'stop': 's', 'start': 'S', 'serve': 'v', 'tool': 't', 'batch': 'c',
-                         'setfc': 'x', 'kill': 'k'}[e['e']] for e in evs)
-            import re
-            sc_ = sum(1 for e in evs if e['e'] in ('kill', 'batch', 'setfc', 'backup'))
-            # an abandoned compaction, a server run that flushes while syncing and stops, the tool again, more blocks
-            if re.search(r'c+kSf+v[fb]*st', k):
-                sc_ += 20
-            # an abandoned compaction, a server that starts already caught up (nothing flushed between the two opens),
-            # indexes and stops, the tool again (to completion), more blocks
-            if re.search(r'c+kSv[fb]*f[fb]*stc+x', k):
-                sc_ += 25
-            if re.search(r'x.*f.*s.*t.*c.*x.*S?.*f', k):
-                sc_ += 10      # two complete compactions with indexing in between and after
-            if re.search(r'ck.*S.*f', k):
-                sc_ += 5
-            return -sc_
+            return -sum(1 for e in evs if e['e'] in ('kill', 'batch', 'setfc', 'backup'))
+        # strata (each gets its share of the plans, so that no family of histories crowds out another):
+        strata = [
+            # an abandoned compaction; a server that flushes while syncing, is caught up and stops before any flush in serving
+            # mode; the tool again
+            r'c+kSf+vstc',
+            # an abandoned compaction; a server that starts already caught up (nothing flushed between its two opens), indexes
+            # and stops; the tool again, to completion
+            r'c+kSv[fb]*f[fb]*stc+x',
+            # two complete compactions with indexing in between and after
+            r'x.*f.*s.*t.*c.*x.*S?.*f',
+            # an abandoned compaction followed by any server run that indexes
+            r'ck.*S.*f',
+        ]
         kept.sort(key=score)
-        take = kept[:(40 if quick else 500)]
+        n = 40 if quick else 500
+        take, seen_ = [], set()
+        for pat in strata:
+            got = [evs for evs in kept if re.search(pat, letters(evs)) and id(evs) not in seen_][:n // 5]
+            take += got
+            seen_ |= set(map(id, got))
+        take += [evs for evs in kept if id(evs) not in seen_][:n - len(take)]
+        out.add(plans_per_stratum=[sum(1 for evs in take if re.search(pat, letters(evs))) for pat in strata])
         jobs = []
         for evs in take:
             plan = to_plan(evs, 3)
@@ -134,8 +145,8 @@ def check(pid, tier, seed):
                 continue
             t = traces[f['tid'] - 1]
             step = t['steps'][f['l'] - 1]
-            if t.get('overflow') and f['clause'] != 'ToolPreserves':
-                continue     # abandoned with more compacted rows than the flush count: outside the claim
+            if t.get('overflow') and (f['clause'] != 'ToolPreserves' or f['l'] - 1 >= (t.get('overflow_at') or 0)):
+                continue     # abandoned with more compacted rows than flushes: outside the claim from that point on
             seen.add(f['tid'])
             if len(out.violations) < 5:
                 brief = {k: v for k, v in step.items() if k in ('ev', 'label', 'h', 'hdrs', 'hfc', 'cc', 'cfc', 'ufc', 'rows', 'exc')}
@@ -160,7 +171,8 @@ def replay(doc):
     keys = ('tree', 'activation', 'limit', 'steps')
     with Scratch('c14r') as sc:
         _res, failures = validate_traces(sc, 'IndexTrace', 'IndexTrace.cfg', [{k: t[k] for k in keys}], workers=2, invariants=CLAUSES)
-    failures = [f for f in failures if f['clause'] in CLAUSES and not (t.get('overflow') and f['clause'] != 'ToolPreserves')]
+    failures = [f for f in failures if f['clause'] in CLAUSES
+                and not (t.get('overflow') and (f['clause'] != 'ToolPreserves' or f['l'] - 1 >= (t.get('overflow_at') or 0)))]
     if failures:
         print(f"VIOLATION property={doc['property']} replay=(this file) clause={failures[0]['clause']}")
         return 1
